@@ -1,11 +1,12 @@
 import SageoptModel.Drv.GF2
 import SageoptModel.Drv.Solvers
+import SageoptModel.Drv.Sig
 open Lean
 
 namespace Sageopt.Drv
 
 def allHandlers : List (String × Handler) :=
-  GF2.handlers ++ Solvers.handlers
+  GF2.handlers ++ Solvers.handlers ++ Sig.handlers
 
 def dispatch (line : String) : String :=
   match Json.parse line with
